@@ -195,7 +195,8 @@ pub(crate) trait ProtocolRequestBuilder {
 #[async_trait]
 impl ProtocolRequestBuilder for crate::Request {
     async fn into_protocol_request(mut self) -> crate::Result<HttpRequest> {
-        let body = if self.is_empty() == Some(false) {
+        // `is_empty` is `None` for a body of unknown length, which still has to be sent
+        let body = if self.is_empty() != Some(true) {
             self.take_body().into_bytes().await?
         } else {
             vec![]
